@@ -54,7 +54,11 @@ def gen_history(rng):
         if r < 0.12:
             if state[p] == "free":
                 z = rng.random() < 0.2
-                hist.append(["spawn", p, z])
+                if rng.random() < 0.15:
+                    # names that look like fields of /proc/<pid>/status (the kernel does not escape tabs in Name:)
+                    hist.append(["spawn", p, z, None, rng.choice(["Tgid:\t1", "Tgid:\t%d" % (p + 1), "Pid:\t1", "Tgid:\t99999"])])
+                else:
+                    hist.append(["spawn", p, z])
                 state[p] = "zombie" if z else "live"
         elif r < 0.18:
             if state[p] == "live":
@@ -70,7 +74,10 @@ def gen_history(rng):
         elif r < 0.34:
             if state[p] == "live":
                 tid += 1
-                hist.append(["thread", p, tid])
+                if rng.random() < 0.4:
+                    hist.append(["thread", p, tid, rng.choice(["Tgid:\t%d" % tid, "Tgid:\t%d" % p, "Tgid:\t1"])])
+                else:
+                    hist.append(["thread", p, tid])
         elif r < 0.42:
             hist.append(["pids"])
         elif r < 0.55:
@@ -369,6 +376,10 @@ def fixed_histories():
     out = []
     for n in SPECIAL + [7, 8, 100, 101, 55]:
         out.append([["spawn", 7, False], ["thread", 7, 100], ["pidex", n], ["pids"]])
+    for name in ("Tgid:\t100", "Tgid:\t7", "Tgid:\t1", "x\rTgid:\t100"):
+        out.append([["spawn", 7, False], ["thread", 7, 100, name], ["pidex", 100], ["pidex", 7], ["pids"], ["iter", None, None, None]])
+        out.append([["spawn", 7, False, None, name], ["spawn", 8, False, None, "Tgid:\t1"], ["pidex", 7], ["pidex", 8], ["pids"],
+                    ["iter", None, None, None]])
     out.append([["spawn", 7, False], ["spawn", 8, False], ["iter", None, None, None], ["respawn", 8], ["isrun_cached", 8],
                 ["iter", None, None, None], ["iter", None, None, None]])
     out.append([["spawn", 7, False], ["iter", None, None, None], ["clear"], ["iter", None, None, None]])
